@@ -7,6 +7,8 @@ import (
 	"strings"
 
 	"example.com/scion-time/net/nts"
+	"example.com/scion-time/net/ntske"
+	"github.com/miscreant/miscreant.go"
 
 	"verifharness/lib"
 )
@@ -92,20 +94,172 @@ func runNtsEnc(tags string, a []Val) {
 	var pan bool
 	withTape(a[7].B, func() { pan = didPanic(func() { nts.EncodePacket(&b, &pkt) }) })
 	if pan {
-		w.Case("nts.enc", tags, fmtVals(a), fmtVals([]Val{VI(1), VBy(nil), VI(0), VL(), VI(0)}))
+		w.Case("nts.enc", tags, fmtVals(a), fmtVals([]Val{VI(1), VBy(nil), VI(0), VL(), VI(0), VL()}))
 		return
 	}
 	enc := append([]byte(nil), b...)
 	var d nts.Packet
 	err := nts.DecodePacket(&d, enc)
 	authOK := false
+	after := VL()
 	if err == nil {
 		var d2 nts.Packet
 		if nts.DecodePacket(&d2, enc) == nil {
 			authOK = nts.ProcessRequest(enc, a[5].B, &d2) == nil
+			after = cookiesVal(d2.Cookies)
 		}
 	}
-	w.Case("nts.enc", tags, fmtVals(a), fmtVals([]Val{VI(0), VBy(enc), VI(ntsErrClass(err)), ntsPktVal(&d), VBool(authOK)}))
+	w.Case("nts.enc", tags, fmtVals(a), fmtVals([]Val{VI(0), VBy(enc), VI(ntsErrClass(err)), ntsPktVal(&d), VBool(authOK), after}))
+}
+
+func cookiesVal(cs []nts.Cookie) Val {
+	v := make([]Val, len(cs))
+	for i, c := range cs {
+		v[i] = VL(VU(uint64(c.Type)), VU(uint64(c.Length)), VBy(c.Cookie))
+	}
+	return VL(v...)
+}
+
+// error class of ProcessRequest / ProcessResponse: 0 accepted, 1 response id mismatch,
+// 2 malformed decrypted field, 3 nonce length, 4 anything else (the AEAD refused)
+func authErrClass(err error) int64 {
+	if err == nil {
+		return 0
+	}
+	m := err.Error()
+	switch {
+	case strings.Contains(m, "unexpected response ID"):
+		return 1
+	case strings.Contains(m, "extension field length < 4"):
+		return 2
+	case strings.Contains(m, "unexpected nonce length"):
+		return 3
+	}
+	return 4
+}
+
+// nts.resp: header, stale tail, request id, [cookies], key, nonce tape -> panicked, encoding,
+// decode error class, decoded packet, ProcessResponse error class, [cookies of the packet after
+// ProcessResponse], [cookies the fetcher stored].  Server side: NewResponsePacket + EncodePacket;
+// client side: DecodePacket + ProcessResponse.
+func runNtsResp(tags string, a []Val) {
+	hdr, tail := a[0].B, a[1].B
+	var cookies [][]byte
+	for _, c := range a[3].L {
+		cookies = append(cookies, c.B)
+	}
+	var b []byte
+	if len(tail) == 0 {
+		b = append([]byte(nil), hdr...)
+		b = b[:len(b):len(b)]
+	} else {
+		b = append(append(make([]byte, 0, len(hdr)+len(tail)), hdr...), tail...)[:len(hdr)]
+	}
+	var pan bool
+	withTape(a[5].B, func() {
+		pan = didPanic(func() {
+			pkt := nts.NewResponsePacket(cookies, a[4].B, a[2].B)
+			nts.EncodePacket(&b, &pkt)
+		})
+	})
+	if pan {
+		w.Case("nts.resp", tags, fmtVals(a), fmtVals([]Val{VI(1), VBy(nil), VI(0), VL(), VI(0), VL(), VL()}))
+		return
+	}
+	enc := append([]byte(nil), b...)
+	var d nts.Packet
+	err := nts.DecodePacket(&d, enc)
+	var d2 nts.Packet
+	var f ntske.Fetcher
+	var aerr int64 = 9
+	if nts.DecodePacket(&d2, enc) == nil {
+		aerr = authErrClass(nts.ProcessResponse(enc, a[4].B, &f, &d2, a[2].B))
+	}
+	stored := f.VerifData().Cookie
+	sv := make([]Val, len(stored))
+	for i, c := range stored {
+		sv[i] = VBy(c)
+	}
+	w.Case("nts.resp", tags, fmtVals(a), fmtVals([]Val{VI(0), VBy(enc), VI(ntsErrClass(err)), ntsPktVal(&d),
+		VI(aerr), cookiesVal(d2.Cookies), VL(sv...)}))
+}
+
+// nts.pos: bytes before the authenticator (header + extension fields, known and unknown), key,
+// plaintext, nonce, [cookie bodies the plaintext was built from], the bytes before are well-formed, the plaintext is built from the bodies
+// -> packet, decode error class, decoded packet, ProcessRequest error class, [cookies after it].
+// The harness seals the plaintext over exactly these bytes and appends the authenticator field
+// itself: the packet is accepted only if DecodePacket found the authenticator where it is.
+func runNtsPos(tags string, a []Val) {
+	prefix, key, pt, nonce := a[0].B, a[1].B, a[2].B, a[3].B
+	aead, err := miscreant.NewAEAD("AES-CMAC-SIV", key, 16)
+	if err != nil {
+		panic(err)
+	}
+	ct := aead.Seal(nil, nonce, pt, prefix)
+	pad := func(n int) int { return (n + 3) &^ 3 }
+	l := 8 + pad(len(nonce)) + pad(len(ct))
+	b := append([]byte(nil), prefix...)
+	b = append(b, 0x04, 0x04, byte(l>>8), byte(l), byte(len(nonce)>>8), byte(len(nonce)), byte(len(ct)>>8), byte(len(ct)))
+	b = append(b, nonce...)
+	b = append(b, make([]byte, pad(len(nonce))-len(nonce))...)
+	b = append(b, ct...)
+	b = append(b, make([]byte, pad(len(ct))-len(ct))...)
+	var d nts.Packet
+	derr := nts.DecodePacket(&d, b)
+	var d2 nts.Packet
+	var aerr int64 = 9
+	after := VL()
+	if nts.DecodePacket(&d2, b) == nil {
+		aerr = authErrClass(nts.ProcessRequest(b, key, &d2))
+		after = cookiesVal(d2.Cookies)
+	}
+	w.Case("nts.pos", tags, fmtVals(a), fmtVals([]Val{VBy(b), VI(ntsErrClass(derr)), ntsPktVal(&d), VI(aerr), after}))
+}
+
+// a plaintext made of cookie extension fields with bodies of at least 24 bytes (so that the
+// last field is still at least 28 bytes long), about n bytes in all
+func genPlainCookies(r *lib.Rng, n int) ([]byte, []Val) {
+	var out []byte
+	var bodies []Val
+	for len(out)+28 <= n {
+		body := 4 * (6 + r.Intn(30))
+		if r.Intn(5) == 0 {
+			body = lib.Pick(r, 100, 104, 124, 252, 256, 260, 300, 512)
+		}
+		if len(out)+4+body > n {
+			body = (n - len(out) - 4) / 4 * 4
+		}
+		if body < 24 {
+			break
+		}
+		c := nonZero(r.Bytes(body))
+		out = append(out, extField(0x0204, c)...)
+		bodies = append(bodies, VBy(c))
+	}
+	return out, bodies
+}
+
+// an extension field as the format defines it
+func extField(ty uint16, v []byte) []byte {
+	n := (len(v) + 3) &^ 3
+	out := []byte{byte(ty >> 8), byte(ty), byte((4 + n) >> 8), byte(4 + n)}
+	out = append(out, v...)
+	return append(out, make([]byte, n-len(v))...)
+}
+
+// offsets of the extension fields of an encoded packet (walk by length, from byte 48)
+func fieldOffsets(b []byte) []int {
+	var off []int
+	pos := 48
+	for len(b)-pos >= 4 {
+		off = append(off, pos)
+		l := int(b[pos+2])<<8 | int(b[pos+3])
+		if l < 4 {
+			break
+		}
+		pos += l
+	}
+	return off
 }
 
 // nts.dec: [byte strings] decoded one after the other into one Packet -> [[error class, packet] ...]
@@ -138,6 +292,20 @@ func genNtsIn(r *lib.Rng, big bool) []Val {
 	nc := lib.Pick(r, 1, 1, 1, 0, 2, 3, r.Intn(8))
 	np := lib.Pick(r, 0, 0, 1, 2, 7, r.Intn(8))
 	ptLen := lib.Pick(r, 0, 0, 0, 1, 2, 3, 104, 128, r.Intn(300))
+	switch r.Intn(8) {
+	case 0: // one long cookie: lengths that need the second length byte
+		clen = lib.Pick(r, 252, 255, 256, 257, 260, 300, 511, 512, 513, 700, 860, 252+r.Intn(640))
+		nc, np = 1, lib.Pick(r, 0, 0, 1)
+		ptLen = lib.Pick(r, 0, 40, r.Intn(120))
+	case 1: // a long identifier
+		idLen = lib.Pick(r, 252, 255, 256, 257, 260, 300, 512, 800, 900, 252+r.Intn(650))
+		nc, np = lib.Pick(r, 0, 1), 0
+		clen = lib.Pick(r, 0, 4, 24, 100)
+		ptLen = lib.Pick(r, 0, 40)
+	case 2: // a long encrypted part (a server's cookies)
+		ptLen = lib.Pick(r, 256, 260, 300, 512, 700, 256+r.Intn(500))
+		nc, np = 0, 0
+	}
 	if !big {
 		// keep 48 + fields within 1024 bytes
 		for 48+4+idLen+3+(nc+np)*(4+clen+3)+8+16+ptLen+16+3 > 1024 {
@@ -172,8 +340,14 @@ func genNtsIn(r *lib.Rng, big bool) []Val {
 	if r.Bool() {
 		tail = nonZero(r.Bytes(1024 - 48))
 	}
+	pt, bodies := genPlain(r, ptLen), []Val(nil)
+	structured := int64(0)
+	if ptLen >= 28 && r.Intn(4) > 0 {
+		pt, bodies = genPlainCookies(r, ptLen)
+		structured = 1
+	}
 	return []Val{VBy(r.Bytes(48)), VBy(tail), VBy(nonZero(r.Bytes(idLen))), VL(cs...), VL(ps...),
-		VBy(r.Bytes(32)), VBy(genPlain(r, ptLen)), VBy(r.Bytes(16))}
+		VBy(r.Bytes(lib.Pick(r, 32, 32, 64))), VBy(pt), VBy(r.Bytes(16)), VL(bodies...), VI(structured)}
 }
 
 // plaintext of the authenticator: up to 27 arbitrary bytes, or cookie extension fields
@@ -243,8 +417,106 @@ func genNts(r *lib.Rng, thorough bool) {
 		a[2] = VBy(nonZero(r.Bytes(32)))
 		// 48 + 36 + 128 + 8 + 16 + pad4(pt + 16) = 1024  <=>  pad4(pt+16) = 788
 		l := 772 + lib.Pick(r, -4, 0, 0, 4) // one encrypted cookie field of exactly that length
-		a[6] = VBy(append([]byte{0x02, 0x04, byte(l >> 8), byte(l)}, r.Bytes(l-4)...))
+		body := nonZero(r.Bytes(l - 4))
+		a[6] = VBy(extField(0x0204, body))
+		a[8], a[9] = VL(VBy(body)), VI(1)
 		runNtsEnc("nt,limit", a)
+	}
+	// server responses: NewResponsePacket + EncodePacket, DecodePacket + ProcessResponse
+	for k := 0; k < n/2; k++ {
+		idLen := lib.Pick(r, 32, 32, 32, 36, 64, 33, 256, 600)
+		clen := lib.Pick(r, 100, 104, 124, 124, 124, 24, 28, 256, 260, 300, 440, 800, 20, 4, 0, 101, 4*r.Intn(60))
+		nc := lib.Pick(r, 1, 2, 8, 8, 1+r.Intn(9), 9, 12)
+		tags := "nt,resp"
+		var cs []Val
+		for i := 0; i < nc; i++ {
+			l := clen
+			if r.Intn(25) == 0 { // cookies of unequal length: the buffer is sized by the first
+				l = clen + lib.Pick(r, -4, 4, 1, -1, 8)
+				if l < 0 {
+					l = 0
+				}
+				tags = "resp,unequal"
+			}
+			cs = append(cs, VBy(nonZero(r.Bytes(l))))
+		}
+		if r.Intn(60) == 0 {
+			cs = nil
+		}
+		var tail []byte
+		if r.Bool() {
+			tail = nonZero(r.Bytes(1024 - 48))
+		}
+		runNtsResp(tags, []Val{VBy(r.Bytes(48)), VBy(tail), VBy(nonZero(r.Bytes(idLen))), VL(cs...),
+			VBy(r.Bytes(lib.Pick(r, 32, 32, 64))), VBy(r.Bytes(16))})
+	}
+	// unknown extension fields between the known ones: the authenticator position
+	for k := 0; k < n/2; k++ {
+		unknown := func() []byte {
+			ty := uint16(lib.Pick(r, 0x0704, 0x0004, 0x0105, 0x0203, 0x8404, 0x0504, int(r.Intn(65536))))
+			if ty == 0x0104 || ty == 0x0204 || ty == 0x0304 || ty == 0x0404 {
+				ty = 0x0704
+			}
+			return extField(ty, r.Bytes(lib.Pick(r, 0, 4, 12, 24, 28, 100, 256, 300, r.Intn(40))))
+		}
+		var fields [][]byte
+		fields = append(fields, extField(0x0104, nonZero(r.Bytes(lib.Pick(r, 32, 32, 36, 64, 33)))))
+		for i := lib.Pick(r, 0, 1, 1, 2); i > 0; i-- {
+			fields = append(fields, extField(0x0204, nonZero(r.Bytes(lib.Pick(r, 100, 104, 124, 24, 3, 0)))))
+		}
+		for i := lib.Pick(r, 0, 0, 1, 3); i > 0; i-- {
+			fields = append(fields, extField(0x0304, make([]byte, lib.Pick(r, 100, 124))))
+		}
+		// put 0..3 unknown fields at random places (also first and last)
+		nu := lib.Pick(r, 0, 1, 1, 2, 3)
+		for i := 0; i < nu; i++ {
+			at := r.Intn(len(fields) + 1)
+			fields = append(fields[:at], append([][]byte{unknown()}, fields[at:]...)...)
+		}
+		tags := "nt,pos"
+		if nu > 0 {
+			tags += ",unknown"
+		}
+		wf := int64(1)
+		prefix := r.Bytes(48)
+		for _, f := range fields {
+			prefix = append(prefix, f...)
+		}
+		switch r.Intn(12) {
+		case 0: // a field whose length lies: everything behind it is found elsewhere
+			off := fieldOffsets(prefix)
+			i := off[r.Intn(len(off))]
+			prefix[i+3] ^= byte(4 << uint(r.Intn(4)))
+			wf = 0
+			tags = "pos,lying"
+		case 1: // no unique identifier
+			prefix = append(prefix[:48], unknown()...)
+			wf = 0
+			tags = "pos,nouid"
+		}
+		ptLen := lib.Pick(r, 0, 0, 10, 60, 130, 300, r.Intn(200))
+		pt, bodies := genPlain(r, ptLen), []Val(nil)
+		structured := int64(0)
+		if ptLen >= 28 && r.Intn(4) > 0 {
+			pt, bodies = genPlainCookies(r, ptLen)
+			structured = 1
+			if r.Intn(6) == 0 { // an unknown field inside the encrypted part is skipped
+				u := unknown()
+				if len(u) >= 28 {
+					pt = append(u, pt...)
+				}
+			}
+		}
+		for len(prefix)+8+16+len(pt)+16+3 > 1024 {
+			if len(pt) > 0 {
+				pt, bodies, structured = nil, nil, 0
+				continue
+			}
+			prefix = prefix[:48+36]
+			wf = 0
+		}
+		runNtsPos(tags, []Val{VBy(prefix), VBy(r.Bytes(lib.Pick(r, 32, 32, 64))), VBy(pt), VBy(r.Bytes(16)),
+			VL(bodies...), VI(wf), VI(structured)})
 	}
 	for k := 0; k < n; k++ {
 		steps := 1 + r.Intn(3)
@@ -252,7 +524,7 @@ func genNts(r *lib.Rng, thorough bool) {
 		tags := "nt,mutated"
 		for s := 0; s < steps; s++ {
 			b := encodeValid(r)
-			switch r.Intn(10) {
+			switch r.Intn(11) {
 			case 0:
 				b = b[:r.Intn(len(b)+1)]
 			case 1:
@@ -279,6 +551,13 @@ func genNts(r *lib.Rng, thorough bool) {
 				i := bytes.LastIndex(b, []byte{0x04, 0x04})
 				if i > 48 {
 					b = append(b[:i], r.Bytes(lib.Pick(r, 0, 27, 28, 40))...)
+				}
+			case 9: // an unknown field at a field boundary (between known fields)
+				off := fieldOffsets(b)
+				at := off[r.Intn(len(off))]
+				u := extField(uint16(lib.Pick(r, 0x0704, 0x0004, 0x8204)), r.Bytes(4*r.Intn(70)))
+				if len(b)+len(u) <= 1024 {
+					b = append(append(append([]byte(nil), b[:at]...), u...), b[at:]...)
 				}
 			case 8: // more than the maximum packet length
 				b = append(b, make([]byte, 1025-len(b)+r.Intn(3))...)
